@@ -1,5 +1,6 @@
 """C16 — chunkings tile the sample axis exactly once (DESIGN.md §5 C16)."""
 import itertools
+import math
 from fractions import Fraction
 import numpy as np
 from . import common as C
@@ -14,15 +15,14 @@ RULE = ('exhaustive (n, chunk, overlap<chunk) and (n, k, size) grids; all multi-
         'durations x thread counts x cache on/off; then random larger triples. non-trivial = '
         'more than one chunk/interval/excerpt produced (counted per distinct case)')
 ASSUMPTIONS = [
-    'chunk length of flat/array/npy readers: the Lean model computes int(round(600*rate)) over Rat (round half to even) '
-    'from the EXACT rational value of the float sample rate handed to the real reader; the only float operation of '
-    'the real code is the product 600.0*rate, so the generator keeps to rates for which that product is exact '
-    '(dyadic rates, incl. exact .5 ties) or whose exact product is further than 2^-30 from a tie (the correctly '
-    'rounded product then rounds to the same integer)',
+    'chunk length of flat/array/npy readers: the Lean model computes int(round(fl(600*rate))) — the float product as '
+    'IEEE-754 binary64 rounding of the exact product (Model/Fl.lean roundDouble, Model/C16d.lean chunkSizeFl), then round '
+    'half to even — from the EXACT rational value of the float sample rate handed to the real reader. No restriction on '
+    'the rates: decimal rates, exact .5 ties and rates whose product lands within a few ulps of a tie are generated; the '
+    'rounding model is tied to the float unit by the `fl` stream of ./check C15',
     'compressed readers: the chunk table is read from the real .ch file and judged by the Lean predicate against '
-    'the chunk length int(np.round(chunk_duration*rate)) the model computes from the exact rationals, and compared '
-    'with the model of mtscomp\'s table (same domain restriction on the product); mtscomp\'s codec and thread pool '
-    'are outside the model',
+    'the chunk length int(np.round(fl(chunk_duration*rate))) the model computes from the exact rationals, and compared '
+    'with the model of mtscomp\'s table; mtscomp\'s codec and thread pool are outside the model',
 ]
 
 
@@ -30,15 +30,6 @@ def _rat(x):
     """exact rational value of a float / int, as the driver reads it"""
     f = Fraction(x)
     return [f.numerator, f.denominator]
-
-
-def _product_ok(a, b):
-    """is the float product a*b inside the exact-arithmetic domain: exact, or so far from a .5 tie that correct
-    rounding of the product cannot change the nearest integer"""
-    x = Fraction(a) * Fraction(b)
-    if Fraction(float(a) * float(b)) == x:
-        return True
-    return abs((x - (x.numerator // x.denominator)) - Fraction(1, 2)) > Fraction(1, 2 ** 30)
 
 
 def _imp():
@@ -201,15 +192,14 @@ def judge(case, impl_res, ans):
     m = ans['ok']
     op = case['op']
     if op in ('reader_flat', 'reader_array'):
-        if not _product_ok(600.0, case['sr']):
-            return 'MACHINERY: generator left the exact-arithmetic domain of the chunk length (rate %r)' % case['sr']
+        if m.get('inrange') is False:
+            return None      # the float product 600*rate is subnormal or overflows: not modelled (tallied)
         if m.get('model') is None:
             # a rate of at most 1/1200 Hz: the model constructor refuses (assert chunk_size > 0); outside the
             # property's quantifier whatever the real code does
             return None
-    if op == 'reader_cbin' and not _product_ok(case['cd'], case['sr']):
-        return 'MACHINERY: generator left the exact-arithmetic domain of the chunk length (cd %r, rate %r)' % (
-            case['cd'], case['sr'])
+    if op == 'reader_cbin' and m.get('table_inrange') is False:
+        return None
     if 'raised' in impl_res:
         return 'SPEC: real code raised %s (%s) at %s on an in-domain input' % (
             impl_res['raised'], impl_res['msg'], impl_res['where'])
@@ -262,6 +252,8 @@ def judge(case, impl_res, ans):
                     'of the new recording: %s' % rw)
         if ok.get('iter_second_pass_same') is False:
             return 'SPEC: a second pass of iter_chunks over the same reader differs from the first'
+        if m.get('reader') != m['model']:
+            return 'MACHINERY: readerChunkBoundsFl differs from getChunkBounds with chunkSizeFl'
         if ok['bounds'] != m['model'] or ok['iter'] != m['iter'] or ok['part_bounds'] != m['part_bounds']:
             return 'CORR: reader bounds/iterator/part bounds differ from the model (chunk length of the model: %s)' % m.get('cs')
         return None
@@ -315,11 +307,22 @@ def tally(rep, case, impl_res, ans):
     if case['op'] in ('reader_flat', 'reader_array') and 'ok' in ans:
         x = 600 * Fraction(case['sr'])
         kind = 'whole' if x.denominator == 1 else 'tie(.5)' if x.denominator == 2 else 'fractional'
-        if Fraction(600.0 * case['sr']) != x:
-            kind = 'inexact float product, far from a tie'
-        if ans['ok'].get('model') is None:
-            kind = 'rejected by the constructor (<= 1/1200 Hz): real %s' % ('raised' if 'raised' in impl_res else 'accepted')
+        mm = ans['ok']
+        rep.count('float product 600*rate: %s' % ('exact' if mm.get('product_is_double') else 'rounded'))
+        if mm.get('inrange') is False:
+            kind = 'float product outside the normal range (not judged)'
+        elif mm.get('exact_cs') is not None and mm.get('exact_cs') != mm.get('cs'):
+            kind = 'float product rounds across a .5 tie: exact-rational model %s, float model %s' % (
+                'differs', 'used')
+        elif case.get('tie_ulps') is not None:
+            kind = 'within a few ulps of a .5 tie, same chunk length as the exact product'
+        if mm.get('model') is None:
+            kind = 'rejected by the constructor (chunk length 0): real %s' % ('raised' if 'raised' in impl_res else 'accepted')
         rep.count('chunk_length_600s*rate:' + kind)
+    if case['op'] == 'reader_cbin' and 'ok' in ans:
+        mm = ans['ok']
+        if mm.get('table_exact_cs') is not None and mm.get('table_exact_cs') != mm.get('table_cs'):
+            rep.count('cbin chunk length: float product rounds across a .5 tie (exact-rational model differs)')
     if case['op'] == 'reader_array':
         rep.count('reader_array_via:' + case.get('via', 'array'))
     if case['op'] == 'reader_flat':
@@ -366,9 +369,14 @@ def _indom(c):
 
 
 def _rate_for(cs):
-    """a float sample rate whose 600 s chunk is about `cs` samples (None when outside the exact-arithmetic domain)"""
-    sr = cs / 600.
-    return sr if _product_ok(600.0, sr) else None
+    """a float sample rate whose 600 s chunk is about `cs` samples (the Lean float model says how many exactly)"""
+    return cs / 600.
+
+
+def _ulps(x, d):
+    for _ in range(abs(d)):
+        x = math.nextafter(x, math.inf if d > 0 else -math.inf)
+    return x
 
 
 FRACTIONAL_RATES = [0.035, 0.0357, 0.0123, 0.0442, 0.00834, 0.0851, 0.17, 0.0699]   # 600*rate is not a whole number
@@ -382,8 +390,6 @@ REJECTED_RATES = [1 / 2048, 1 / 4096, 0.0008]      # int(round(600*rate)) = 0: t
 def gen(tier, rng):
     q = tier == 'quick'
     for i, sr in enumerate(FRACTIONAL_RATES + DYADIC_RATES):
-        if not _product_ok(600.0, sr):
-            continue
         big = int(600 * sr) + 1
         lists = [[100], [30, 55, 41], [7, 160], [64, 64, 3, 90], [2 * big + 3, big, max(1, big - 1)]]
         if q and sr in DYADIC_RATES:
@@ -394,6 +400,23 @@ def gen(tier, rng):
     for sr in REJECTED_RATES:
         yield dict(p=PID, op='reader_flat', sizes=[5, 3], nch=1, offset=0, sr=sr)
         yield dict(p=PID, op='reader_array', sizes=[7], sr=sr)
+    # rates whose product 600*rate lands ON or within a few ulps of a .5 tie: the float product may be the tie itself
+    # (then round takes the even neighbour) although the exact product is beside it — e.g. 0.0225: exact 13.4999.., float
+    # 13.5 -> 14.  Includes the smallest accepted chunk (0.5 + 2^-54 is where the constructor starts to accept).
+    ks = [0, 1, 4, 6, 11, 13, 16, 28, 29, 37, 112, 187] if q else list(range(0, 60)) + [112, 187, 262, 1000, 17999]
+    for n_, k in enumerate(ks):
+        for d in ((-2, 0, 1, 3) if q else range(-3, 4)):
+            sr = _ulps((k + .5) / 600., d)
+            big = k + 2
+            if (n_ + d) % 2 and k < 2000:      # (the int16 test recording of reader_flat holds row numbers * 3)
+                yield dict(p=PID, op='reader_flat', sizes=[2 * big + 3, big, max(1, big - 1)], nch=1 + n_ % 2, offset=0,
+                           sr=sr, tie_ulps=d)
+            else:
+                yield dict(p=PID, op='reader_array', sizes=[3 * big + 1], sr=sr, via=['array', 'npy'][(n_ + d) % 4 // 2],
+                           tie_ulps=d)
+    # an ordinary acquisition rate and decimal rates: far from every tie
+    for sr in (30000., 25000., 2500.1, 0.1, 0.37, 1.23):
+        yield dict(p=PID, op='reader_array', sizes=[int(600 * sr) * 2 + 7 if sr < 10 else 1000], sr=sr)
     N, CS = (40, 14) if q else (70, 24)
     # 1. exhaustive chunk_bounds grid (every residue of n mod (cs-ov), odd overlaps)
     for n in range(0, N + 1):
@@ -425,7 +448,7 @@ def gen(tier, rng):
             for cs in (1, 2, 3):
                 yield dict(p=PID, op='get_chunk_bounds', sizes=list(sizes), cs=cs)
                 sr = _rate_for(cs)
-                if sr is not None and sum(sizes) > 0 and (sum(sizes) + cs) % (3 if q else 1) == 0:
+                if sum(sizes) > 0 and (sum(sizes) + cs) % (3 if q else 1) == 0:
                     yield dict(p=PID, op='reader_flat', sizes=list(sizes), sr=sr, nch=2, offset=[4, 3, 8][cs % 3], names='idx')
     S2 = 4 if q else 6
     for k in (1, 2, 3):
@@ -446,13 +469,12 @@ def gen(tier, rng):
                 yield dict(p=PID, op='reader_array', sizes=[n], sr=sr, via=['array', 'npy'][(n + cs) % 2])
     # 4. compressed readers: lengths x chunk durations x threads x cache
     for n in ((5, 17, 40) if q else (1, 5, 17, 40, 64, 99)):
-        # chunk length cd*10 samples: 5, 10 / 2.5 (tie -> 2), 7.5 (tie -> 8), 25, 3.5 would need cd = 0.35 (inexact: excluded)
-        for cd in ((0.5, 1.0, 0.25, 0.75) if q else (0.25, 0.5, 0.75, 1.0, 2.5, 0.125 * 3)):
-            if not _product_ok(cd, 10.0):
-                continue
+        # chunk length cd*10 samples: 5, 10 / 2.5 (tie -> 2), 7.5 (tie -> 8), 25; decimal durations: 0.35 (float product
+        # exactly 3.5 -> 4 although the double 0.35 is below 7/20), 0.45 (4.5 -> 4), 0.15, 0.33
+        for cd in ((0.5, 1.0, 0.25, 0.75, 0.35, 0.45) if q else (0.25, 0.5, 0.75, 1.0, 2.5, 0.125 * 3, 0.35, 0.45, 0.15, 0.33, 0.65)):
             for bs in (1, 2, 3):
                 for cache in (False, True):
-                    if q and cd in (0.25, 0.75) and (bs + (n % 3) + cache) % 3:
+                    if q and cd in (0.25, 0.75, 0.35, 0.45) and (bs + (n % 3) + cache) % 3:
                         continue            # quick tier: a third of the tie chunk durations
                     yield dict(p=PID, op='reader_cbin', n=n, sr=10.0, cd=cd, bs=bs, cache=cache,
                                again=[[], [True], [False, True], [True, True]][(n + bs + int(cache)) % 4])
